@@ -264,10 +264,11 @@ def all_methods(fl, n, thresholds):
     return acts
 
 
-def drive(ctx, fl, e, vals, acts, weights):
+def drive(ctx, fl, e, vals, acts, weights, instances=None):
     rb = e.rule_blocks[0]
     for kind, params in acts:
-        rb.activation = getattr(fl, kind)(*params)
+        # (instances: one activation object per method/parameters reused over all degree vectors - no state may survive)
+        rb.activation = instances.setdefault((kind, params), getattr(fl, kind)(*params)) if instances is not None else getattr(fl, kind)(*params)
         for k, v in enumerate(vals):
             e.input_variables[k].value = v
         try:
@@ -314,8 +315,11 @@ def run(ctx):
             weights = [1] * n
             e = make_engine(fl, n, weights, enabled, loaded)
             acts = all_methods(fl, n, thresholds)
+            instances = {} if i % 2 == 0 else None
             for vals in itertools.product(alpha, repeat=n):
-                drive(ctx, fl, e, vals, acts, weights)
+                drive(ctx, fl, e, vals, acts, weights, instances)
+            if instances is not None:
+                ctx.hit("event:activation instances reused")
             if i % 5 == 0:
                 ctx.sample("exhaustive", {"rules": n, "special": special, "degree_vectors": f"{len(alpha)}^{n}", "methods": len(acts)})
         for i, rnd in ctx.cases("random", ctx.scale(150, 50_000)):
@@ -331,6 +335,20 @@ def run(ctx):
             drive(ctx, fl, e, vals, acts, weights)
             if i < 2:
                 ctx.sample("random", {"rules": n, "weights": weights, "enabled": enabled, "loaded": loaded, "inputs": vals, "methods": [[k, list(p)] for k, p in acts[:4]]})
+        # degenerate blocks: no rules at all, or no loaded rule
+        for i, rnd in ctx.cases("degenerate", 2):
+            for kind, params in all_methods(fl, 2, (0.0, 0.5)):
+                e = make_engine(fl, 2, [1, 1], [True, True], [False, False] if i else [True, True])
+                if i == 0:
+                    e.rule_blocks[0].rules.clear()
+                e.rule_blocks[0].activation = getattr(fl, kind)(*params)
+                for k, v in enumerate((0.5, 1.0)):
+                    e.input_variables[k].value = v
+                try:
+                    e.process()
+                except Exception as ex:
+                    ctx.violation(f"{kind}: processing a rule block without (loaded) rules raised {type(ex).__name__}", {"method": kind, "params": list(params)}, "no error", repr(ex))
+                ctx.hit("piece:block without loaded rules")
         # batches: every non-General method must reject them
         batch_methods = [(k, p) for k, p in all_methods(fl, 2, (0.0, 0.5)) if k != "General"]
         for i, rnd in ctx.cases("batch", len(batch_methods)):
@@ -354,7 +372,7 @@ def run(ctx):
             ctx.require(f"batch:{m}")
     for m in ("Highest", "Lowest", "First", "Last"):
         ctx.require(f"piece:{m}:tie", f"piece:{m}:n>eligible", f"piece:{m}:n<eligible", f"piece:{m}:disabled-rule", f"piece:{m}:unloaded-rule")
-    ctx.require("piece:Threshold:threshold-equals-a-degree", "piece:First:threshold-equals-a-degree")
+    ctx.require("piece:Threshold:threshold-equals-a-degree", "piece:First:threshold-equals-a-degree", "event:activation instances reused", "piece:block without loaded rules")
 
 
 def passive(ctx, fl, probe):
